@@ -161,6 +161,8 @@ class CallMixin(object):
       yield st1, (r if isinstance(r, Exc) else obj)
 
   def call_qualified(self, q, args, kw, st, self_val=None):
+    if self.contract is not None and q in self.contract.calls:
+      q = self.contract.calls[q]       # the case of the callee's contract that applies at calls made here
     if q in self.world.contracts and (self.contract is None or q not in self.contract.inline
                                       ) and q != getattr(self, 'target_name', None) + '#':
       yield from self.call_contract(self.world.contracts[q], args, kw, st)
